@@ -394,6 +394,30 @@ def accept (cfg : Validation) (keys : Keys) (t : ParsedToken) (now : Nat) : Bool
   | .ok _ => true
   | .error _ => false
 
+/-! ### One verifier instance over time
+
+`struct SnapTokenVerifier { static_key, jwks_store, validation }` (re-extracted: `verifierFields`), `verify(&self, token)`
+(`verifyReceiver`): `verify` reads the three fields and writes to none of them, so what an instance is made of - the
+key configuration and the `Validation` - is the same before and after every call.  `present` is one call on an
+instance, `run` a whole history of calls (token, clock second) on the same instance. -/
+
+/-- what one `SnapTokenVerifier` instance consists of -/
+structure Instance where
+  cfg : Validation
+  keys : Keys
+
+/-- one `verify` call: the instance afterwards, and the verdict -/
+def Instance.present (v : Instance) (t : ParsedToken) (now : Nat) : Instance × Except Err Claims :=
+  (v, verify v.cfg v.keys t now)
+
+/-- a history of calls on one instance: the instance afterwards and the verdicts, in order -/
+def Instance.run (v : Instance) : List (ParsedToken × Nat) → Instance × List (Except Err Claims)
+  | [] => (v, [])
+  | (t, now) :: rest =>
+    let (v1, r) := v.present t now
+    let (v2, rs) := v1.run rest
+    (v2, r :: rs)
+
 /-- outcome of the lifetime computation of `register_snaptun_identity_handler` -/
 inductive Grant
   /-- `Token::exp_time`: `UNIX_EPOCH + Duration::from_secs(exp)` overflows `SystemTime` (i64 seconds) -/
